@@ -22,6 +22,7 @@ def prog_from_json(p):
         "imports": list(p.get("imports", [])),
         "macros": [tup(m) for m in p.get("macros", [])],
         "routines": [(tup(h), None if b is None else tup(b)) for h, b in p["routines"]],
+        **({"order": [tuple(x) for x in p["order"]]} if p.get("order") else {}),
     }
 
 
